@@ -100,6 +100,20 @@ CHECKS = {
         note="Trusted: Coq kernel + vm_compute; Base/Layout.v models apply_blockwise on nested lists; Hamming / Reed-Muller own inverses are checked "
              "on the implementation here (their decoder theorems are C02). Closed under the global context.",
         technique="Coq proof (linear extension, list induction for layout and scatter/gather) + kernel-evaluated checkers on published matrices + exhaustive round-trip correspondence"),
+    "C02": dict(
+        text="Coq theorems for EVERY parity-check / generator matrix, length and received word: the syndrome table (patterns enumerated by "
+             "weight then lexicographically, first hit wins -- the implementation's order) holds a minimum-weight element of each coset; "
+             "syndrome decoding returns a zero-syndrome word at minimum Hamming distance (ML); with minimum weight >= 2t+1 it removes every "
+             "pattern of <= t errors; instantiated for a published (G,H) by the kernel-evaluated checkers code_pair_ok and min_distance_ge "
+             "(all 2^k codewords x all <= t patterns); exhaustive ML / Reed-Muller inverse return a message at minimum distance over ALL "
+             "2^k messages (codebook completeness proved via bit reversal); the Hamming inverse corrects every single error for every H "
+             "with distinct non-zero columns; weight triangle inequality. Models tied to the decoders by exact comparison of the error "
+             "pattern / message / corrected word; Berlekamp-Massey and the majority decoder are decided on the implementation "
+             "(exhaustively over <= t patterns within the tier bound).",
+        design="6/C02",
+        note="Trusted: Coq kernel + vm_compute; hand-written models Decoders/Hard.v tied by correspondence; Massey's theorem and Reed's majority-logic "
+             "correctness are NOT formalised (partial: those two decoders are checked on the implementation only). Closed under the global context.",
+        technique="Coq proof (coset-leader minimality by induction over the enumeration order, weight lemmas on bit masks, argmin lemma) + kernel-evaluated checkers + exact decoder correspondence by vm_compute"),
 }
 NOT_YET = {}
 
